@@ -17,9 +17,10 @@ What is proved here (all unbounded in the state, the scripts and the fuel):
 * refutation witnesses: the unrepaired model violates callback order, destroyed-at-refcount-zero
   and no-touch-after-free on concrete histories; each single repair is needed.
 
-NOT proved (kept as the full statements, see the comment block at the end): the four history
-theorems `callback_order`, `destroyed_once_and_last`, `destroyed_only_at_refcount_zero`,
-`no_touch_after_free` for ALL histories; they are sampled by the differential check only.
+* the history theorems `callback_order`, `destroyed_once_and_last`, `destroyed_only_at_refcount_zero`,
+  `no_touch_after_free_connections` for ALL histories of ALL operations from the initial state.
+
+NOT proved: the service object's own reference count (touching the freed service), sampled only.
 -/
 namespace QbVerif.Props.C04
 open QbVerif.IpcsLife
@@ -272,22 +273,74 @@ example : ∃ ops : List Op, (∀ op, op ∈ ops → LiveOp op) ∧ ops.length =
   ⟨[.script .closed [{ ret := 1 }], .connect 0, .app (.r 1), .gone 0, .job],
    by intro op h; simp at h; rcases h with h | h | h | h | h <;> subst h <;> trivial, rfl⟩
 
+/-! ### history level, FULL: every history of every operation from the initial state
+    (script, connect, send, sendn = request bursts, gone, disc/ref/unref/ev/iter, job, run, rate, fault =
+    failing dispatch_add / dispatch_mod / dispatch_del, half, halfgone, destroy, finish) -/
+
+/-- callback_order: for EVERY history, no callback is ever invoked out of the order
+    accept (created msg* closed(≠0)* closed(0))? destroyed — in particular no msg after closed, also when
+    msg_process disconnects on a request that is not the last of a batch. -/
+theorem callback_order (ops : List Op) (i : Nat) : ((run initFixed ops).conns i).bad = false :=
+  ((run_ok ops initFixed initFixed_top).core.inv.conn i).nb
+
+/-- destroyed_once_and_last: for EVERY history the monitor flag is clear (so `destroyed` was never invoked
+    twice and nothing was invoked after it: monitor_flags_anything_after_destroyed), and a connection for
+    which `destroyed` has been invoked (phase dead) would flag ANY further callback. -/
+theorem destroyed_once_and_last (ops : List Op) (i : Nat) :
+    ((run initFixed ops).conns i).bad = false ∧
+    (((run initFixed ops).conns i).phase = .dead →
+      ∀ kind r, (monitor kind r ((run initFixed ops).conns i)).bad = true) :=
+  ⟨callback_order ops i, fun h kind r => monitor_flags_anything_after_destroyed _ kind r h⟩
+
+/-- destroyed_only_at_refcount_zero: for EVERY history the count of every connection is exactly the sum of
+    its owners; once `destroyed` has been invoked no owner is left: the library holds no reference, the
+    application holds none, the count is 0 (and `destroyed` at a non-zero count would have set the flag:
+    monitor_flags_destroyed_with_references + callback_order). -/
+theorem destroyed_only_at_refcount_zero (ops : List Op) (i : Nat) :
+    ((run initFixed ops).conns i).rc = b2n ((run initFixed ops).conns i).init + ((run initFixed ops).conns i).appref +
+      b2n ((run initFixed ops).conns i).brCreated + b2n ((run initFixed ops).conns i).brDispatch +
+      b2n ((run initFixed ops).conns i).brWalk ∧
+    (((run initFixed ops).conns i).phase = .dead →
+      ((run initFixed ops).conns i).rc = 0 ∧ ((run initFixed ops).conns i).appref = 0) := by
+  have hp := (run_ok ops initFixed initFixed_top).core.inv.conn i
+  refine ⟨hp.R, fun hd => ?_⟩
+  have hph := hp.ph
+  simp only [PhaseOk, hd] at hph
+  refine ⟨?_, hph.2.1⟩
+  rw [hp.R, hph.1, hph.2.1, hph.2.2.1, hph.2.2.2.1, hph.2.2.2.2.1]; rfl
+
+/-- between operations no library bracket is left behind: count = initial reference + application references -/
+theorem refcount_between_ops (ops : List Op) (hh : (run initFixed ops).halt = false) (i : Nat) :
+    ((run initFixed ops).conns i).rc =
+      b2n ((run initFixed ops).conns i).init + ((run initFixed ops).conns i).appref := by
+  have ht := run_ok ops initFixed initFixed_top
+  have hb := ht.nb hh i
+  simp [Brs] at hb
+  rw [(ht.core.inv.conn i).R, hb.1, hb.2.1, hb.2.2]; simp
+
+/-- no_touch_after_free, connection objects: for EVERY history (incl. qb_ipcs_destroy with live
+    connections, disconnect / ref / unref / send from inside any callback, list walks, request bursts,
+    failing poll handlers) no freed connection is ever touched; a freed connection is dead, unreferenced,
+    unlisted.  (The service object's own count is not in the invariant: `no_touch_after_free` for the
+    service part is sampled by the differential check under ASan only.) -/
+theorem no_touch_after_free_connections (ops : List Op) (i : Nat) :
+    ((run initFixed ops).conns i).uaf = false ∧
+    (((run initFixed ops).conns i).freed = true →
+      ((run initFixed ops).conns i).phase = .dead ∧ ((run initFixed ops).conns i).rc = 0 ∧
+      i ∉ (run initFixed ops).list) := by
+  have hi := (run_ok ops initFixed initFixed_top).core.inv
+  exact ⟨(hi.conn i).nu, fun hf => by have := inv_freed hi i hf; exact ⟨this.1, this.2.1, this.2.2.2⟩⟩
+
+/-- non-vacuity / sanity: a history with a burst, a fault, destroy and finish runs to `finished` -/
+theorem test_full_history_runs :
+    (run initFixed [.script .msg [{}, { ops := [.d 0] }, {}], .connect 0, .sendn 0 3, .fault 0 1, .connect 1,
+      .half 2, .destroy, .finish]).halt = false := by decide
+
 /-
-Full statements (NOT yet proved; sampled by the differential check against the real code):
-
-theorem callback_order (ops : List Op) (i : Nat) : ((run initFixed ops).conns i).bad = false
-theorem destroyed_once_and_last / destroyed_only_at_refcount_zero : the same flag (monitor_flags_*)
-theorem no_touch_after_free (ops : List Op) : (run initFixed ops).halt = false
-
-Missing for them: TopInv preservation by `destroy` (walkFix / walkStep: the reference-holding walk),
-`half` / `halfgone` (only service fields: `TopInv.same`), `finish` (folds of dropAppRefs, gone,
-halfGone, then destroy, runJobs), and the service object's own count (svcUaf).
-NEXT LEMMA: `walkStep_ok : Core s → s.halt = false → BrW s c → nxt = succOf c s.list →
-  Core (walkStep s c nxt) ∧ ((walkStep s c nxt).halt = false → match nxt with | some x => BrW _ x | none => NB _)`
-(BrW like BrD in Lemmas/IpcsLifeInvTop3; needs `succOf c l = some x → x ∈ l ∧ (l.Nodup → x ≠ c)`,
-P.refW / P.decW from Lemmas/IpcsLifeInvConn, Core.lnn for `phase x ≠ none`), then `walkFix_ok` by
-induction on the fuel (the fuel-0 case drops the reference), `destroy_ok`, `finish_ok`, and the
-cases destroy / half / halfgone / finish in `step_live_ok` (Lemmas/IpcsLifeInvTop7).
+Still open (sampled by the differential check against the real code under ASan):
+the service object's own reference count (`svcRc` / `svcUaf`): one for the creator plus one per connection
+and per pending handshake is NOT in the invariant, so `(run initFixed ops).halt = false` (which also covers
+touching the freed service) is not proved; job_add failures are not modelled.
 -/
 
 end QbVerif.Props.C04
